@@ -3,7 +3,9 @@
 Deciding step: all schedules of two (thorough: also three) real threads each constructing a
 first in-memory store, enumerated by iterative preemption bounding with scheduling points at
 every line of store.py and every bytecode of the constructor's own frame; plus the sequential
-orders (second thread after the first store exists / after it was closed).
+orders: every sequence (<=2, thorough <=3) of owner-thread operations (in-memory/file creation,
+close, valid open, failing opens of a missing / an invalid file) followed by an attempt from another
+thread, which must be refused once the owner has constructed a store.
 Invariant: at most one thread ever succeeds in constructing a store; losers get RuntimeError;
 no deadlock.
 """
@@ -117,48 +119,142 @@ def _explore_branch(args):
     return st
 
 
-def _sequential():
-    """Second thread tries after the first store exists, and after it was closed."""
+OWNER_EVENTS = ['create_mem', 'create_file', 'close', 'open_ok', 'open_missing', 'open_invalid', 'append_invalid']
+OTHER_ATTEMPTS = ['create_mem', 'create_file', 'open_ok']
+
+
+def _traj(k):
+    from vf.ref import store_model as sm
+
+    return sm.make_traj(k, False)
+
+
+def _seq_case(case):
+    """Sequential orders: the owner thread performs a sequence of store operations (successful and
+    failing ones), stays alive, then another thread attempts to construct a store (must be refused
+    once the owner has constructed one), then the owner constructs another one (must succeed)."""
+    import gc
+    import shutil
+    import tempfile
+    from pathlib import Path
+
     _setup()
-    TS = _S['TS']
-    out = []
-    n = 0
-    for close_first in (False, True):
-        for other_first in (False, True):
-            _reset()
-            res = {}
-
-            def attempt(tag):
-                try:
-                    s = TS.create()
-                    res[tag] = 'ok'
-                    return s
-                except RuntimeError:
-                    res[tag] = 'refused'
-                except Exception as ex:  # noqa: BLE001
-                    res[tag] = f'exc:{type(ex).__name__}'
-
-            def first():
-                s = attempt('first')
-                if close_first and s is not None:
-                    s.close()
-
-            if other_first:
-                t = threading.Thread(target=first)
-                t.start()
-                t.join()
-                attempt('second')
-            else:
-                first()
-                t = threading.Thread(target=lambda: attempt('second'))
-                t.start()
-                t.join()
-            n += 1
-            if res.get('first') != 'ok' or res.get('second') != 'refused':
-                out.append(V('sequential-not-refused', f'close_first={close_first} other_thread_first={other_first}: {res}',
-                             case={'sequential': [close_first, other_first]}))
     _reset()
-    return n, out
+    TS = _S['TS']
+    seq, attempt = case['owner'], case['other']
+    tmp = Path(tempfile.mkdtemp(prefix='vf_c20_'))
+    log = {'owner': [], 'other': None, 'owner_again': None, 'constructed': False}
+    go_other = threading.Event()
+    other_done = threading.Event()
+    state = {'open': [], 'files': 0, 'valid': None}
+
+    def construct(kind):
+        if kind == 'create_mem':
+            return TS.create()
+        if kind == 'create_file':
+            state['files'] += 1
+            p = tmp / f'f{state["files"]}_{threading.get_ident()}.nc'
+            s = TS.create(base_file=p)
+            s.add(_traj(0))
+            state['valid'] = p
+            return s
+        if kind == 'open_ok':
+            if state['valid'] is None:
+                return 'skip'
+            # a valid file can only be opened once its creating session is closed
+            for s in list(state['open']):
+                if getattr(s, 'base_file', None) == state['valid']:
+                    s.close()
+                    state['open'].remove(s)
+            return TS.open(base_file=state['valid'])
+        if kind == 'open_missing':
+            return TS.open(base_file=tmp / 'does_not_exist.nc')
+        if kind in ('open_invalid', 'append_invalid'):
+            g = tmp / 'garbage.nc'
+            g.write_bytes(b'this is not a NetCDF file' * 10)
+            return (TS.open if kind == 'open_invalid' else TS.append)(base_file=g)
+        raise ValueError(kind)
+
+    def owner():
+        for ev in seq:
+            try:
+                if ev == 'close':
+                    if state['open']:
+                        state['open'].pop().close()
+                        log['owner'].append('closed')
+                    else:
+                        log['owner'].append('nothing-to-close')
+                    continue
+                r = construct(ev)
+                if r == 'skip':
+                    log['owner'].append('skip')
+                    continue
+                state['open'].append(r)
+                log['constructed'] = True
+                log['owner'].append('ok')
+            except Exception as ex:  # noqa: BLE001
+                log['owner'].append(f'exc:{type(ex).__name__}')
+        go_other.set()
+        other_done.wait(20)
+        try:
+            s = TS.create()
+            log['owner_again'] = 'ok'
+            s.close()
+        except Exception as ex:  # noqa: BLE001
+            log['owner_again'] = f'exc:{type(ex).__name__}'
+
+    def other():
+        go_other.wait(20)
+        try:
+            r = construct(attempt)
+            log['other'] = 'skip' if r == 'skip' else 'ok'
+            if r != 'skip':
+                try:
+                    r.close()
+                except Exception:  # noqa: BLE001
+                    pass
+        except RuntimeError as ex:
+            log['other'] = 'refused' if 'thread' in str(ex).lower() else f'exc:RuntimeError:{ex}'
+        except Exception as ex:  # noqa: BLE001
+            log['other'] = f'exc:{type(ex).__name__}'
+        other_done.set()
+
+    ta, tb = threading.Thread(target=owner), threading.Thread(target=other)
+    ta.start()
+    tb.start()
+    ta.join(60)
+    tb.join(60)
+    for s in state['open']:
+        try:
+            s.close()
+        except Exception:  # noqa: BLE001
+            pass
+    gc.collect()
+    shutil.rmtree(tmp, ignore_errors=True)
+    _reset()
+    vio = []
+    if log['constructed'] and log['other'] not in ('refused', 'skip'):
+        vio.append(V('sequential-not-refused', f'owner thread did {list(zip(seq, log["owner"]))}; another thread then tried {attempt}: {log["other"]} (must be refused)', case=case))
+    if log['constructed'] and log['owner_again'] != 'ok':
+        vio.append(V('owner-thread-locked-out', f'owner thread did {list(zip(seq, log["owner"]))}; its next construction gave {log["owner_again"]}', case=case))
+    return {'outcome': f'{log["other"]}', 'constructed': log['constructed'], 'violations': vio}
+
+
+def _sequential(depth):
+    import itertools
+
+    cases = []
+    for d in range(1, depth + 1):
+        for seq in itertools.product(OWNER_EVENTS, repeat=d):
+            for att in OTHER_ATTEMPTS:
+                cases.append({'owner': list(seq), 'other': att})
+    res = runner.pool_map(_seq_case, cases, runner.NPROC, _setup, ())
+    vio = [v for r in res for v in r['violations']]
+    judged = sum(1 for r in res if r['constructed'] and r['outcome'] != 'skip')
+    outcomes = {}
+    for r in res:
+        outcomes['seq:' + r['outcome']] = outcomes.get('seq:' + r['outcome'], 0) + 1
+    return len(cases), judged, outcomes, vio
 
 
 def run(tier, seed):
@@ -198,8 +294,9 @@ def run(tier, seed):
                                     'schedules': cfg_sched, 'scheduling_points_default': len(x.choices)})
         if len(x.choices) < 10:
             raise runner.HarnessError(f'only {len(x.choices)} scheduling points in the default schedule: tracing is not effective')
-    nseq, vseq = _sequential()
+    nseq, njudged, oseq, vseq = _sequential(2 if tier == 'quick' else 3)
     total['violations'] += vseq
+    total['outcomes'].update(oseq)
     # a failing schedule must fail identically when replayed twice
     for v in total['violations'][:3]:
         if 'choices' in v['case']:
@@ -214,6 +311,7 @@ def run(tier, seed):
         'samples': total['samples'][:4] or [{'choices_prefix': [], 'note': 'default schedule'}],
         'schedules': total['schedules'],
         'sequential_orders': nseq,
+        'sequential_orders_judged': njudged,
         'configs': total['per_config'],
         'distinct_outcomes': len(total['outcomes']),
         'outcomes': total['outcomes'],
@@ -234,8 +332,8 @@ def _tup(s):
 
 def replay(case):
     _setup()
-    if 'sequential' in case:
-        return _sequential()[1]
+    if 'owner' in case:
+        return _seq_case(case)['violations']
     nthreads, body, gran, bound = case['config']
     x = _make(nthreads, body, gran)().run(list(case['choices']))
     return _check(x)
